@@ -33,6 +33,7 @@ func (p params) name() string { return fmt.Sprintf("%s/F%d/P%d", p.W, p.F, p.P) 
 func scenarios(tier string) []vlib.Scenario {
 	var out []vlib.Scenario
 	add := func(p params) { out = append(out, vlib.Scenario{Name: p.name(), P: p}) }
+	add(params{W: "W8-failure-four-streams", F: 0, P: 1})
 	for _, w := range []string{"W1-open-close-beside-traffic", "W2-up-down-state-readers", "W3-failure-two-streams", "W4-calls-metadata-reconnect", "W5-reconnect-transport", "W6-multi", "W7-store"} {
 		f := 0
 		if strings.HasPrefix(w, "W3") || strings.HasPrefix(w, "W4") {
@@ -181,6 +182,50 @@ func (w *world) connWorkload() {
 			vsched.Sleep(time.Second, "h:cut")
 			w.B.Cut(w.B.Live())
 		}
+	case strings.HasPrefix(w.p.W, "W8"):
+		// two upstreams and two downstreams resume side by side; the application keeps reading buffered chunks
+		// while the acknowledgement flush fails on the dead link
+		u1, err := w.OpenUp(ctx, "u1", iscp.WithUpstreamFlushPolicyImmediately(), iscp.WithUpstreamQoS(message.QoSUnreliable), iscp.WithUpstreamCloseTimeout(2*time.Second))
+		if err != nil {
+			return
+		}
+		d0, err := w.OpenDown(ctx, "d0", kit.Filter("src"), iscp.WithDownstreamQoS(message.QoSReliable), iscp.WithDownstreamAckFlushInterval(100*time.Millisecond))
+		if err != nil {
+			return
+		}
+		d1, err := w.OpenDown(ctx, "d1", kit.Filter("src2"), iscp.WithDownstreamQoS(message.QoSReliable), iscp.WithDownstreamAckFlushInterval(100*time.Millisecond))
+		if err != nil {
+			return
+		}
+		if c := w.B.Live(); c != nil {
+			for i := 0; i < 4; i++ {
+				w.B.Send(c, dchunk(w.B.Downs[0].Alias, uint32(i+1), fmt.Sprint("d", i)))
+			}
+			w.B.Send(c, dchunk(w.B.Downs[1].Alias, 1, "e0"))
+		}
+		vsched.Quiesce()
+		spawn("h:reader", func() {
+			for i := 0; i < 4; i++ {
+				rctx, rcancel := kit.Ctx(3 * time.Second)
+				d0.D.ReadDataPoints(rctx)
+				rcancel()
+				vsched.Sleep(60*time.Millisecond, "h:reader")
+			}
+		})
+		spawn("h:reader", func() {
+			rctx, rcancel := kit.Ctx(3 * time.Second)
+			d1.D.ReadDataPoints(rctx)
+			rcancel()
+		})
+		spawn("h:writer", func() {
+			for i := 0; i < 2; i++ {
+				up.Write(ctx, kit.IDA, fmt.Sprint(i))
+				u1.Write(ctx, kit.IDB, fmt.Sprint(i))
+				vsched.Sleep(2*time.Second, "h:writer")
+			}
+		})
+		vsched.Sleep(90*time.Millisecond, "h:cut")
+		w.B.Cut(w.B.Live())
 	case strings.HasPrefix(w.p.W, "W4"):
 		spawn("h:meta", func() { w.Conn.SendMetadata(ctx, &message.BaseTime{SessionID: "s", Name: "m"}) })
 		spawn("h:call", func() {
